@@ -48,7 +48,7 @@ def specs_for(ctx):
                                   "extent": 10.0, "reflect": rng.random() < 0.2},
                           "build": _with_prebuild(rng, {"limit": "inf", "fit": rng.choice(["dlite", "taubinSVD"]),
                                                          "ignore_four": b == "squares33" and rng.random() < 0.5}),
-                          "ids": {"offset": rng.choice([0, 3, 50]), "stride": rng.choice([1, 2])},
+                          "ids": {"offset": rng.choice([0, 3, 50]), "stride": rng.choice([1, 2]), "vperm": rng.random() < 0.5},
                           "nosolve": True})
     for i in range(ctx.pick(80, 800)):
         k = rng.choice([0, 1, 2, 3, 5, 8, 15])
@@ -59,7 +59,7 @@ def specs_for(ctx):
                       "build": _with_prebuild(rng, {"limit": rng.choice(["pi", "inf"]), "fit": rng.choice(["dlite", "taubinSVD"]),
                                                      "ignore_four": rng.random() < 0.2}),
                       "resample": rng.choice([None, None, 3, 6]) if k >= 2 else None,
-                      "ids": {"offset": rng.choice([0, 11]), "stride": rng.choice([1, 3]), "shuffle": rng.random() < 0.5},
+                      "ids": {"offset": rng.choice([0, 11]), "stride": rng.choice([1, 3]), "shuffle": rng.random() < 0.5, "vperm": rng.random() < 0.5},
                       "nosolve": True})
     return specs, ninst
 
